@@ -210,3 +210,38 @@ def spec_update_U(ctx, self, acc_U_A1, acc_U_A2):
     U = Arr((Cc * Dd, R), lambda i, r: Sum(R, lambda s: P(acc_U_A2.fn(i, s)) * P(inv.fn(cd(i)[0], s, r)), "s"))
     self.fields["_U"] = U
     return U
+
+
+# ---------------------------------------------------------------- block updates of the enrolment (C07.block.*), one client
+def spec_block_y(self, X, xs, z, n_acc, f_acc):
+    """y* = (I + Σ_c N_c V_c'S_c^-1V_c)^-1 V'S^-1 (F - N(m + D z) - Σ_h N_h U x_h)"""
+    f = self.fields
+    fn = spec_fn_y_i(None, self, X, xs, z, n_acc, f_acc)
+    Pinv = precision_inv(f["r_V"], prod_term(f["_V"], self), n_acc)
+    sg = sigma_of(self)
+    b = Arr((f["r_V"],), lambda r: T.sum_over(Cc * Dd, lambda i: P(f["_V"].fn(i, r)) / sg(i) * P(fn.fn(i)), "i"))
+    return Arr((f["r_V"],), lambda r: Sum(f["r_V"], lambda s: P(Pinv.fn(r, s)) * P(b.fn(s)), "s"))
+
+
+def spec_block_x(self, X, y, z):
+    """x_h* = (I + Σ_c N_hc U_c'S_c^-1U_c)^-1 U'S^-1 (F_h - N_h(m + D z + V y)) for every session h"""
+    f = self.fields
+    H = X.slen()
+    UP = prod_term(f["_U"], self)
+    sg = sigma_of(self)
+
+    def col(h):
+        s = X.elem(h)
+        fn = spec_fn_x_ih(None, self, s, latent_z_i=z, latent_y_i=y)
+        Pinv = precision_inv(f["r_U"], UP, s.fields["n"])
+        b = lambda q: T.sum_over(Cc * Dd, lambda i: P(f["_U"].fn(i, q)) / sg(i) * P(fn.fn(i)), "i")
+        return lambda r: Sum(f["r_U"], lambda q: P(Pinv.fn(r, q)) * b(q), "s")
+    return Arr((f["r_U"], H), lambda r, h: col(h)(r))
+
+
+def spec_block_z(self, X, xs, y, n_acc, f_acc):
+    """z* = (D/S)(F - N(m + V y) - Σ_h N_h U x_h) / (1 + D^2 N / S) elementwise"""
+    f = self.fields
+    fn = spec_fn_z_i(None, self, X, xs, y, n_acc, f_acc)
+    sg = sigma_of(self)
+    return Arr((Cc * Dd,), lambda i: P(f["_D"].fn(i)) / sg(i) * P(fn.fn(i)) / (ONE + P(f["_D"].fn(i)) ** 2 * P(n_acc.fn(cd(i)[0])) / sg(i)))
